@@ -545,7 +545,7 @@ Definition void_tags : list bytes :=
   [B "area"; B "base"; B "br"; B "col"; B "embed"; B "hr"; B "img"; B "input"; B "link"; B "meta";
    B "param"; B "source"; B "track"; B "wbr"].
 
-Definition while_limit : nat := 100 * 100 + 1.   (* body executions before the prescribed error *)
+Definition while_limit : nat := 100 * 100.       (* completed iterations allowed; a test still true after that many is the prescribed error *)
 
 Section Nodes.
   Variable globals : list (bytes * jv).          (* page data: what a mixin body sees *)
